@@ -237,7 +237,7 @@ func randEnv(r *gen.Rand) env {
 	case 2:
 		e.maxFee = -1
 	default:
-		e.maxFee = int64(r.Intn(100000000))
+		e.maxFee = int64(r.Intn(1000000000))
 	}
 	return e
 }
@@ -463,6 +463,16 @@ func mutants(r *gen.Rand, g []*types.Transaction, signers []txw.Signer) []mutant
 		c = cp()
 		c[k].Next = c[k].Hash()
 		add("link-next-own-hash", c)
+		// the whole chain consistently re-linked with FullHash (header still the head's Hash)
+		c = cp()
+		for i := n - 1; i >= 1; i-- {
+			c[i-1].Next = c[i].FullHash()
+		}
+		hh := c[0].Hash()
+		for _, t := range c {
+			t.Header = hh
+		}
+		add("link-chain-fullhash", c)
 		c = cp()
 		fh := c[0].FullHash()
 		for _, t := range c {
@@ -517,9 +527,13 @@ func scenario(r *gen.Rand, signers []txw.Signer, deep bool) {
 	chain := cfg.GetChainID()
 	ex := groupExecers(r, n)
 	in := make([]*types.Transaction, n)
+	badChain := -1
+	if r.Chance(1, 8) {
+		badChain = r.Intn(n) // one member of a foreign chain
+	}
 	for i := range in {
 		cid := chain
-		if r.Chance(1, 15) {
+		if i == badChain {
 			cid = chain + 1
 		}
 		in[i] = txw.PlainTx(r, ex[i], cid)
@@ -801,7 +815,7 @@ func main() {
 		opGetTxGroup(p)
 		opCheck1(randEnv(r), p)
 	}
-	for i := 0; i < gen.Scale(25, 300); i++ {
+	for i := 0; i < gen.Scale(20, 300); i++ {
 		scenario(r, signers, i%8 == 0)
 	}
 	_ = bytes.Equal
